@@ -377,6 +377,19 @@ def run(ctx, prop="C17"):
         api = [o for o in roots if role_of(o) is not None and role_of(o)[0] in ("SCHEMA", "DATA")]
         ctx.check(f"{P}.R6", f"_inject_schema: {ev['how']} on `{ev['target']}` never reaches a caller's object", not api, inj.where(ev["node"]), f"_inject_schema: {norm(ev['node'])[:80]}", f"the in-place edit can reach {api[:2]}")
     if P == "C17":
+        # ---- R8 values that differ between interpreters --------------------------------------------------------------
+        ctx.rule("C17.R8", "no function of the package computes a value from a per-interpreter quantity: the salted built-in hash() (outside __hash__ methods), the process id", floor=100)
+        # id() is left out: it is the usual key of a visited-set in a recursive walk, where only equality of addresses of
+        # live objects matters; hash() inside a __hash__ method only places the object in a table
+        per_process = {"hash", "os.getpid", "getpid", "object.__hash__"}
+        for m_ in a.p.modules.values():
+            for f_ in m_.all_funcs:
+                hits = [cs for cs in a.cg.sites.get(f_.id, []) if cs.external in per_process and f_.node.name != "__hash__"]
+                if hits:
+                    for cs in hits:
+                        ctx.violation("C17.R8", f"{f_.qualname}: no per-interpreter quantity", f_.where(cs.node), f"{f_.qualname}: {norm(cs.node)[:80]}", f"`{cs.external}(..)` differs from one interpreter to the next (hash salt, addresses, pid): the same call gives another result in a fresh interpreter", positive=True)
+                else:
+                    ctx.holds("C17.R8", f"{f_.qualname}: no per-interpreter quantity", f_.where())
         ctx.borrow("C18", {"C18.R4": "C17.R7"}, "a changed interpreter- or process-wide setting is state kept across calls: the next operation, of any caller, runs under it")
 
 
